@@ -9,6 +9,7 @@ import (
 	"encoding/json"
 	"fmt"
 	"math"
+	"sort"
 
 	"verif/harness/hx"
 
@@ -65,27 +66,47 @@ func genFloat(r *hx.Rng) float64 {
 	}
 }
 
-func genMesh(r *hx.Rng) meshDesc {
+func genMesh(r *hx.Rng) (meshDesc, string) {
 	var d meshDesc
 	nv := r.Range(0, 12)
 	nt := r.Range(0, 10)
 	if nv == 0 {
 		nt = 0
 	}
-	welded := r.Chance(2, 3)
-	if !welded {
+	// index shape: welded with an unrelated vertex count; unwelded identity; as many indices as vertices but
+	// permuted / with repeats (so some vertices are unreferenced); as many vertices as triangles
+	shape := "welded"
+	switch r.Intn(12) {
+	case 0, 1, 2:
+		shape = "identity"
 		nv = nt * 3
+	case 3, 4:
+		shape = "permutation"
+		nv = nt * 3
+	case 5:
+		shape = "len=verts,repeats"
+		nv = nt * 3
+	case 6:
+		shape = "verts=tris"
+		nv = nt
 	}
 	d.Idx = make([]int, nt*3)
-	for i := range d.Idx {
-		if welded {
-			d.Idx[i] = r.Intn(nv)
-		} else {
+	switch shape {
+	case "identity":
+		for i := range d.Idx {
 			d.Idx[i] = i
+		}
+	case "permutation":
+		copy(d.Idx, r.Perm(nt*3))
+	default:
+		for i := range d.Idx {
+			d.Idx[i] = r.Intn(nv)
 		}
 	}
 	if r.Chance(1, 10) && nt > 0 {
-		d.Idx = append(d.Idx, r.Intn(nv)) // trailing partial triangle: PrimitiveCount rounds down
+		for k := r.Range(1, 2); k > 0; k-- {
+			d.Idx = append(d.Idx, r.Intn(nv)) // trailing partial triangle: PrimitiveCount rounds down
+		}
 	}
 	if !r.Chance(1, 12) && nv > 0 {
 		d.Pos = make([][3]float64, nv)
@@ -98,9 +119,80 @@ func genMesh(r *hx.Rng) meshDesc {
 		for i := range d.Normals {
 			// keep every normal in the half space z>0 so the mean never cancels to zero
 			d.Normals[i] = [3]float64{r.Float()*2 - 1, r.Float()*2 - 1, 0.25 + r.Float()}
+			if r.Chance(1, 4) {
+				// far from unit length: normalisation must happen
+				s := []float64{0.01, 3, 250}[r.Intn(3)]
+				for k := range d.Normals[i] {
+					d.Normals[i][k] *= s
+				}
+			}
 		}
 	}
-	return d
+	return d, shape
+}
+
+// shapeDescs enumerates small meshes by the *shape* of their index buffer relative to the vertex count: every
+// coincidence a writer could key a shortcut on (as many indices as vertices, three times as many, as many vertices
+// as triangles, one more / one fewer) combined with index patterns that are not the identity (reversed, rotated,
+// swapped winding, constant, strided, all permutations of three), each with and without normals.  Vertices carry
+// pairwise distinct positions and normals, so a corner taken from the wrong vertex changes the output.
+func shapeDescs() []meshDesc {
+	var out []meshDesc
+	seen := map[string]bool{}
+	add := func(nv int, idx []int) {
+		for _, withN := range []bool{false, true} {
+			d := meshDesc{Idx: append([]int{}, idx...), Pos: make([][3]float64, nv)}
+			for v := 0; v < nv; v++ {
+				f := float64(v + 1)
+				d.Pos[v] = [3]float64{f, 10*f + 0.5, -100 * f}
+			}
+			if withN {
+				d.Normals = make([][3]float64, nv)
+				for v := 0; v < nv; v++ {
+					d.Normals[v] = [3]float64{float64(v%3-1) * 0.5, float64(v%2)*0.75 - 0.25, 1 + 0.125*float64(v)}
+				}
+			}
+			k := fmt.Sprint(nv, d.Idx, withN)
+			if !seen[k] {
+				seen[k] = true
+				out = append(out, d)
+			}
+		}
+	}
+	for nv := 1; nv <= 7; nv++ {
+		lens := []int{3, 6, 9, nv - 1, nv, nv + 1, 2 * nv, 3 * nv, 3*nv + 1}
+		for _, n := range lens {
+			if n < 3 || n > 21 {
+				continue
+			}
+			pats := map[string]func(j int) int{
+				"mod":    func(j int) int { return j % nv },
+				"rev":    func(j int) int { return (n - 1 - j) % nv },
+				"rot":    func(j int) int { return (j + 1) % nv },
+				"const":  func(j int) int { return nv - 1 },
+				"stride": func(j int) int { return (2*j + j/3) % nv },
+				"wind":   func(j int) int { return (j - j%3 + []int{0, 2, 1}[j%3]) % nv },
+			}
+			for _, name := range []string{"mod", "rev", "rot", "const", "stride", "wind"} {
+				idx := make([]int, n)
+				for j := range idx {
+					idx[j] = pats[name](j)
+				}
+				add(nv, idx)
+			}
+		}
+	}
+	for _, p := range [][]int{{0, 1, 2}, {0, 2, 1}, {1, 0, 2}, {1, 2, 0}, {2, 0, 1}, {2, 1, 0}} {
+		add(3, p)
+		add(4, p)
+	}
+	add(6, []int{3, 5, 4, 2, 0, 1})
+	add(6, []int{0, 1, 2, 2, 1, 4})
+	add(6, []int{0, 2, 1, 3, 5, 4})
+	add(6, []int{0, 0, 0, 1, 1, 2}) // degenerate triangles
+	add(9, []int{8, 7, 6, 5, 4, 3, 2, 1, 0})
+	add(9, []int{0, 1, 2, 0, 1, 2, 0, 1, 2})
+	return out
 }
 
 func buildMesh(d meshDesc) modeling.Mesh {
@@ -345,6 +437,363 @@ func readCase(in []byte) hx.Case {
 	return c
 }
 
+// ---------------------------------------------------------------------------------------------
+// Large inputs.  A case carries only the parameters; Check/C07.v derives the same records from them
+// (synth_word, synth_tri, synth_hdr, synth_extra, idxf, axis) and compares order-sensitive fingerprints.
+
+const fpMask = 1<<63 - 1
+
+type fpState struct{ h1, h2 uint64 }
+
+func (f *fpState) add(x uint64) {
+	f.h1 = (f.h1*1000003 + x + 1) & fpMask
+	f.h2 = (f.h2*998244353 + x + 1) & fpMask
+}
+func (f *fpState) bytes(b []byte) {
+	for _, x := range b {
+		f.add(uint64(x))
+	}
+}
+func (f fpState) coq() string { return fmt.Sprintf("(%d,%d)%%Z", f.h1, f.h2) }
+func fpBytes(b []byte) fpState {
+	var f fpState
+	f.bytes(b)
+	return f
+}
+
+func synthWord(seed, i, k uint64) uint32 {
+	v := 13*i + k + seed
+	mant := (5*v + v<<9 + (v&127)<<16) & 0x7FFFFF
+	ex := 120 + (v+v>>5)&15
+	sg := (v >> 2) & 1
+	return uint32(sg<<31 + ex<<23 + mant)
+}
+func synthVec(seed, v uint64) [3]uint32 {
+	return [3]uint32{synthWord(seed, v, 0), synthWord(seed, v, 1), synthWord(seed, v, 2)}
+}
+
+type bigFileDesc struct {
+	N     int    `json:"n"`
+	Seed  uint64 `json:"seed"`
+	ZN    bool   `json:"zero_normals"`
+	Extra int    `json:"trailing_bytes"`
+	Cut   int    `json:"cut_bytes"`
+	Note  string `json:"note"`
+}
+
+// synthFile: independent encoder of the synthetic file (header, count, 50-byte records, trailing bytes).
+func synthFile(d bigFileDesc) []byte {
+	b := make([]byte, 84+50*d.N+d.Extra)
+	for j := 0; j < 80; j++ {
+		b[j] = byte((uint64(j)*11 + d.Seed) & 255)
+	}
+	binary.LittleEndian.PutUint32(b[80:], uint32(d.N))
+	for i := 0; i < d.N; i++ {
+		off := 84 + 50*i
+		var w [12]uint32
+		for c := 0; c < 4; c++ {
+			v := synthVec(d.Seed, uint64(4*i+c))
+			copy(w[3*c:], v[:])
+		}
+		if d.ZN {
+			if i%2 == 0 {
+				w[0], w[1], w[2] = 0, 0, 0
+			} else {
+				w[0], w[1], w[2] = 0x80000000, 0, 0x80000000
+			}
+		}
+		for k, x := range w {
+			binary.LittleEndian.PutUint32(b[off+4*k:], x)
+		}
+		binary.LittleEndian.PutUint16(b[off+48:], uint16((7*uint64(i)+d.Seed)&0xFFFF))
+	}
+	for j := 0; j < d.Extra; j++ {
+		b[84+50*d.N+j] = byte((uint64(j)*37 + d.Seed) & 255)
+	}
+	return b
+}
+
+// bigMeshObs: what stl.ReadMesh returned, as a Check.C07 bigmesh (counts + fingerprints).
+func bigMeshObs(data []byte) (string, string) {
+	var m *modeling.Mesh
+	var err error
+	func() {
+		defer func() {
+			if rec := recover(); rec != nil {
+				err = fmt.Errorf("panic: %v", rec)
+			}
+		}()
+		m, err = stl.ReadMesh(bytes.NewReader(data))
+	}()
+	if err != nil {
+		return "None", ""
+	}
+	fail := ""
+	var fi, fpz, fn fpState
+	idx := m.Indices()
+	for i := 0; i < idx.Len(); i++ {
+		fi.add(uint64(idx.At(i)))
+	}
+	words := func(attr string, f *fpState) {
+		p := m.Float3Attribute(attr)
+		for i := 0; i < p.Len(); i++ {
+			v := p.At(i)
+			for _, x := range []float64{v.X(), v.Y(), v.Z()} {
+				if float64(float32(x)) != x && !math.IsNaN(x) {
+					fail = attr + " component is not a float32 value"
+				}
+				f.add(uint64(f32bits(x)))
+			}
+		}
+	}
+	if m.HasFloat3Attribute(modeling.PositionAttribute) {
+		words(modeling.PositionAttribute, &fpz)
+	}
+	nrm := "None"
+	if m.HasFloat3Attribute(modeling.NormalAttribute) {
+		words(modeling.NormalAttribute, &fn)
+		nrm = "(Some " + fn.coq() + ")"
+	}
+	return fmt.Sprintf("(Some {| b_nverts := %d; b_nidx := %d; b_idx_fp := %s; b_pos_fp := %s; b_nrm_fp := %s |})",
+		m.AttributeLength(), idx.Len(), fi.coq(), fpz.coq(), nrm), fail
+}
+
+func bigFileCase(d bigFileDesc) hx.Case {
+	c := hx.Case{Kind: "bigfile", Desc: d}
+	full := synthFile(d)
+	inFp := fpBytes(full)
+	in := full
+	if d.Cut > 0 && d.Cut <= len(full) {
+		in = full[:len(full)-d.Cut]
+	}
+	rd, wr := "None", "None"
+	var bin *stl.Binary
+	var err error
+	func() {
+		defer func() {
+			if rec := recover(); rec != nil {
+				err = fmt.Errorf("panic: %v", rec)
+			}
+		}()
+		bin, err = stl.Read(bytes.NewReader(in))
+	}()
+	if err == nil {
+		var f fpState
+		f.bytes(bin.Header[:])
+		for _, t := range bin.Triangles {
+			for _, v := range []stl.Vec{t.Normal, t.Vertex1, t.Vertex2, t.Vertex3} {
+				f.add(uint64(math.Float32bits(v.X)))
+				f.add(uint64(math.Float32bits(v.Y)))
+				f.add(uint64(math.Float32bits(v.Z)))
+			}
+			f.add(uint64(t.Attribute))
+		}
+		rd = fmt.Sprintf("(Some (%d, %s))", len(bin.Triangles), f.coq())
+		var buf bytes.Buffer
+		if err := stl.Write(&buf, *bin); err == nil {
+			wr = fmt.Sprintf("(Some (%d, %s))", buf.Len(), fpBytes(buf.Bytes()).coq())
+		}
+	}
+	rm, fail := bigMeshObs(in)
+	if fail != "" {
+		c.GoFail, c.FailKey = fail, "stl:read-float32"
+	}
+	c.Coq = fmt.Sprintf("CBigFile %d %d %s %d %d %s %s %s %s", d.N, d.Seed, hx.CoqBool(d.ZN), d.Extra, d.Cut, inFp.coq(), rd, wr, rm)
+	c.Nontriv = d.N >= 1
+	c.Key = fmt.Sprintf("bf|%d|%d|%v|%d|%d", d.N, d.Seed, d.ZN, d.Extra, d.Cut)
+	return c
+}
+
+type bigMeshDesc struct {
+	N    int    `json:"n"`    // triangles
+	NV   int    `json:"nv"`   // vertices
+	A    int    `json:"a"`    // index j = (a*j + b*(j/3) + c) mod nv
+	B    int    `json:"b"`
+	C    int    `json:"c"`
+	Part int    `json:"part"` // 0..2 further indices after the last whole triangle
+	Seed uint64 `json:"seed"`
+	NDir int    `json:"ndir"` // -1: no Normal attribute; 0..5: every vertex normal is +x,-x,+y,-y,+z,-z times 2^(seed mod 3)
+	Note string `json:"note"`
+}
+
+func bigMeshCase(d bigMeshDesc) hx.Case {
+	c := hx.Case{Kind: "bigmesh", Desc: d}
+	idx := make([]int, 3*d.N+d.Part)
+	for j := range idx {
+		idx[j] = (d.A*j + d.B*(j/3) + d.C) % d.NV
+	}
+	m := modeling.NewTriangleMesh(idx)
+	pos := make([]vector3.Float64, d.NV)
+	for v := range pos {
+		pos[v] = w2v(synthVec(d.Seed, uint64(v)))
+	}
+	m = m.SetFloat3Attribute(modeling.PositionAttribute, pos)
+	if d.NDir >= 0 {
+		s := float64(int(1) << (d.Seed % 3))
+		if d.NDir%2 == 1 {
+			s = -s
+		}
+		var a [3]float64
+		a[d.NDir/2] = s
+		nr := make([]vector3.Float64, d.NV)
+		for v := range nr {
+			nr[v] = vector3.New(a[0], a[1], a[2])
+		}
+		m = m.SetFloat3Attribute(modeling.NormalAttribute, nr)
+	}
+	var buf bytes.Buffer
+	var werr error
+	func() {
+		defer func() {
+			if rec := recover(); rec != nil {
+				werr = fmt.Errorf("panic: %v", rec)
+			}
+		}()
+		werr = stl.WriteMesh(&buf, m)
+	}()
+	wr, rm := "None", "None"
+	if werr == nil {
+		wr = fmt.Sprintf("(Some (%d, %s))", buf.Len(), fpBytes(buf.Bytes()).coq())
+		var fail string
+		rm, fail = bigMeshObs(buf.Bytes())
+		if fail != "" {
+			c.GoFail, c.FailKey = fail, "stl:read-float32"
+		}
+	}
+	nd := "None"
+	if d.NDir >= 0 {
+		nd = fmt.Sprintf("(Some %d)", d.NDir)
+	}
+	c.Coq = fmt.Sprintf("CBigMesh %d %d %d %d %d %d %d %s %s %s", d.N, d.NV, d.A, d.B, d.C, d.Part, d.Seed, nd, wr, rm)
+	c.Nontriv = d.N >= 1
+	c.Key = fmt.Sprintf("bm|%d|%d|%d|%d|%d|%d|%d|%d", d.N, d.NV, d.A, d.B, d.C, d.Part, d.Seed, d.NDir)
+	return c
+}
+
+// boundaryCounts: record counts at and around the reader's chunk size, its multiples and powers of two.
+func boundaryCounts(max int) []int {
+	set := map[int]bool{}
+	for p := 64; p <= max; p *= 2 {
+		for _, d := range []int{-1, 0, 1} {
+			set[p+d] = true
+		}
+	}
+	for c := 4096; c <= max+1; c += 4096 {
+		for _, d := range []int{-1, 0, 1} {
+			set[c+d] = true
+		}
+	}
+	var out []int
+	for n := range set {
+		if n <= max+1 {
+			out = append(out, n)
+		}
+	}
+	sort.Ints(out)
+	return out
+}
+
+func bigCases(run *hx.Run, r *hx.Rng) []hx.Case {
+	var out []hx.Case
+	thorough := run.Tier == "thorough"
+	file := func(d bigFileDesc) {
+		run.Count("bigfile:n=" + bucket(d.N))
+		if d.Extra > 0 {
+			run.Count("bigfile:trailing-bytes")
+		}
+		if d.Cut > 0 {
+			run.Count("bigfile:cut-short")
+		}
+		out = append(out, bigFileCase(d))
+	}
+	mesh := func(d bigMeshDesc) {
+		run.Count("bigmesh:n=" + bucket(d.N))
+		out = append(out, bigMeshCase(d))
+	}
+	seed := func() uint64 { return uint64(r.Intn(60000)) }
+	// always: the reader's chunk size and its neighbours, one and two chunks plus a remainder
+	for _, n := range []int{4095, 4096, 4097, 8193} {
+		file(bigFileDesc{N: n, Seed: seed(), Note: "chunk boundary"})
+	}
+	file(bigFileDesc{N: 4097, Seed: seed(), ZN: true, Note: "chunk boundary, zero normals"})
+	file(bigFileDesc{N: 4097, Seed: seed(), Cut: 1 + r.Intn(49), Note: "chunk boundary, last record cut short"})
+	file(bigFileDesc{N: 4096, Seed: seed(), Extra: 1 + r.Intn(60), Note: "chunk boundary, trailing bytes"})
+	counts := boundaryCounts(20000)
+	pickN := 3
+	if thorough {
+		pickN = len(counts)
+	}
+	for _, k := range r.Perm(len(counts))[:pickN] {
+		n := counts[k]
+		if !thorough && n > 13000 {
+			n = n%8192 + 4096 // quick: keep the evaluation cheap, still beyond one chunk
+		}
+		file(bigFileDesc{N: n, Seed: seed(), ZN: r.Chance(1, 4), Note: "power of two / chunk multiple +-1"})
+	}
+	extra := 2
+	if thorough {
+		extra = 24
+		file(bigFileDesc{N: 20000, Seed: seed(), Note: "largest"})
+		file(bigFileDesc{N: 5000, Seed: seed(), Note: "between chunks"})
+	}
+	for i := 0; i < extra; i++ {
+		d := bigFileDesc{N: 4097 + r.Intn(9000), Seed: seed(), ZN: r.Chance(1, 4), Note: "random count beyond one chunk"}
+		switch r.Intn(4) {
+		case 0:
+			d.Extra = 1 + r.Intn(120)
+		case 1:
+			d.Cut = 1 + r.Intn(50*d.N)
+		}
+		file(d)
+	}
+	// meshes: unwelded identity, permuted (as many indices as vertices), welded over few vertices,
+	// as many vertices as triangles, three indices per vertex
+	ndir := func() int { return r.Range(-1, 5) }
+	mesh(bigMeshDesc{N: 4097, NV: 3 * 4097, A: 1, Seed: seed(), NDir: ndir(), Note: "unwelded identity"})
+	mesh(bigMeshDesc{N: 4096, NV: 3 * 4096, A: 3*4096 - 1, C: 3*4096 - 1, Seed: seed(), NDir: ndir(), Note: "reversed: as many indices as vertices"})
+	mesh(bigMeshDesc{N: 4097, NV: 61, A: 7, B: 1, C: 3, Part: r.Intn(3), Seed: seed(), NDir: ndir(), Note: "welded over few vertices"})
+	mesh(bigMeshDesc{N: 4099, NV: 4099, A: 5, B: 2, C: 1, Seed: seed(), NDir: ndir(), Note: "as many vertices as triangles"})
+	nm := 2
+	if thorough {
+		nm = 30
+	}
+	for i := 0; i < nm; i++ {
+		n := counts[r.Intn(len(counts))]
+		if !thorough && n > 9000 {
+			n = n%4096 + 4096
+		}
+		d := bigMeshDesc{N: n, Seed: seed(), NDir: ndir(), Part: r.Intn(3)}
+		switch r.Intn(5) {
+		case 0:
+			d.NV, d.A, d.Note = 3*n, 1, "unwelded identity"
+		case 1:
+			d.NV, d.A, d.C, d.Note = 3*n+d.Part, 3*n+d.Part-1, 3*n+d.Part-1, "reversed: as many indices as vertices"
+		case 2:
+			d.NV, d.A, d.B, d.C, d.Note = n, 1+r.Intn(7), r.Intn(3), r.Intn(n), "as many vertices as triangles"
+		case 3:
+			d.NV, d.A, d.B, d.C, d.Note = 3*n, 1+2*r.Intn(4), r.Intn(3), r.Intn(3*n), "strided: as many indices as vertices"
+		default:
+			d.NV = r.Range(1, 200)
+			d.A, d.B, d.C, d.Note = 1+r.Intn(9), r.Intn(5), r.Intn(d.NV), "welded over few vertices"
+		}
+		mesh(d)
+	}
+	return out
+}
+
+func bucket(n int) string {
+	switch {
+	case n <= 4096:
+		return "..4096"
+	case n <= 8192:
+		return "4097..8192"
+	case n <= 12288:
+		return "8193..12288"
+	default:
+		return "12289.."
+	}
+}
+
 func main() {
 	run := hx.ParseFlags("C07", "Check.C07")
 	for _, in := range run.Inputs() {
@@ -362,6 +811,14 @@ func main() {
 			} else {
 				run.Add(bytesCase(b))
 			}
+		case "bigfile":
+			var d bigFileDesc
+			json.Unmarshal(in.Raw, &d)
+			run.Add(bigFileCase(d))
+		case "bigmesh":
+			var d bigMeshDesc
+			json.Unmarshal(in.Raw, &d)
+			run.Add(bigMeshCase(d))
 		}
 	}
 	if run.Replay != "" {
@@ -369,14 +826,36 @@ func main() {
 		return
 	}
 	r := hx.NewRng(run.Seed)
+	var small []hx.Case
 	// fixed corner cases first
-	run.Add(meshCase(meshDesc{Idx: []int{}}))
-	run.Add(meshCase(meshDesc{Idx: []int{0, 1, 2, 2, 1, 3}, Pos: [][3]float64{{0, 0, 0}, {1, 0, 0}, {0, 1, 0}, {1, 1, 0}}}))
-	run.Add(bytesCase(make([]byte, 84)))
+	small = append(small, meshCase(meshDesc{Idx: []int{}}))
+	small = append(small, meshCase(meshDesc{Idx: []int{0, 1, 2, 2, 1, 3}, Pos: [][3]float64{{0, 0, 0}, {1, 0, 0}, {0, 1, 0}, {1, 1, 0}}}))
+	small = append(small, bytesCase(make([]byte, 84)))
+	{
+		// a count field far beyond the bytes present: must be rejected (and must not allocate for the count)
+		b := make([]byte, 84+120)
+		binary.LittleEndian.PutUint32(b[80:], 0xFFFFFFFF)
+		small = append(small, readCase(b), bytesCase(b))
+		small = append(small, readCase(make([]byte, 83)), readCase(nil))
+	}
+	// systematic index shapes (all of them in both tiers: they are small)
+	for _, d := range shapeDescs() {
+		run.Count("shape-stream")
+		if len(d.Idx) == len(d.Pos) {
+			run.Count("shape-stream:indices=vertices")
+		}
+		if len(d.Idx) == 3*len(d.Pos) {
+			run.Count("shape-stream:indices=3*vertices")
+		}
+		if len(d.Idx)/3 == len(d.Pos) {
+			run.Count("shape-stream:vertices=triangles")
+		}
+		small = append(small, meshCase(d))
+	}
 	for i := 0; i < run.N; i++ {
 		switch i % 4 {
 		case 0, 1:
-			d := genMesh(r)
+			d, shape := genMesh(r)
 			c := meshCase(d)
 			if d.Normals != nil {
 				run.Count("mesh:with-normals")
@@ -384,18 +863,55 @@ func main() {
 			if d.Pos == nil {
 				run.Count("mesh:no-position")
 			}
+			run.Count("mesh:shape=" + shape)
 			run.Count(fmt.Sprintf("mesh:tris=%d", len(d.Idx)/3))
-			run.Add(c)
+			small = append(small, c)
 		case 2:
-			run.Add(bytesCase(genBytes(r)))
+			b := genBytes(r)
+			switch r.Intn(10) {
+			case 0:
+				for k := r.Range(1, 60); k > 0; k-- {
+					b = append(b, byte(r.Intn(256))) // not well-formed: trailing bytes (the reader ignores them)
+				}
+				run.Count("bytes:trailing")
+			case 1:
+				if len(b) > 84 {
+					b = b[:84+r.Intn(len(b)-84)]
+					run.Count("bytes:truncated")
+				}
+			}
+			small = append(small, bytesCase(b))
 		case 3:
 			b := genBytes(r)
-			if r.Chance(1, 8) && len(b) > 84 {
-				b = b[:84+r.Intn(len(b)-84)] // malformed stream: truncated
-				run.Count("readmesh:truncated")
+			switch r.Intn(10) {
+			case 0:
+				if len(b) > 84 {
+					b = b[:84+r.Intn(len(b)-84)] // malformed stream: truncated
+					run.Count("readmesh:truncated")
+				}
+			case 1:
+				for k := r.Range(1, 60); k > 0; k-- {
+					b = append(b, byte(r.Intn(256)))
+				}
+				run.Count("readmesh:trailing")
 			}
-			run.Add(readCase(b))
+			small = append(small, readCase(b))
 		}
+	}
+	// spread the large (expensive to evaluate) cases evenly over the run: hx cuts the case list into
+	// consecutive shards, one coqc each
+	big := bigCases(run, r)
+	every := len(small)/len(big) + 1
+	bi := 0
+	for i, c := range small {
+		if i%every == every/2 && bi < len(big) {
+			run.Add(big[bi])
+			bi++
+		}
+		run.Add(c)
+	}
+	for ; bi < len(big); bi++ {
+		run.Add(big[bi])
 	}
 	run.Finish()
 }
